@@ -585,6 +585,17 @@ func (d *Document) AutoGenerateTOC(config *TOCConfig) error {
 	// 使用真正的Word域字段生成目录，而不是简化的SDT
 	tocElements := d.createWordFieldTOC(config, entries)
 
+	// 如果文档里已有目录SDT（例如上一次 AutoGenerateTOC 生成的），原位替换它，
+	// 而不是再插入一个目录：重复调用得到的仍然是一个目录
+	if _, sdtIndex := d.findTOCSDT(); sdtIndex >= 0 {
+		newElements := make([]interface{}, 0, len(d.Body.Elements)+len(tocElements))
+		newElements = append(newElements, d.Body.Elements[:sdtIndex]...)
+		newElements = append(newElements, tocElements...)
+		newElements = append(newElements, d.Body.Elements[sdtIndex+1:]...)
+		d.Body.Elements = newElements
+		return nil
+	}
+
 	// 将目录插入到指定位置
 	if insertIndex == 0 {
 		// 在开头插入
